@@ -193,12 +193,16 @@ def op_reopen(run):
     from . import opcx
 
     pin = opcx.Pkg.from_bytes(data)
+    renamed = {rec[1]: str(rec[0].partname) for rec in getattr(run, "loaded_types", {}).values()}  # name when loaded -> name as just saved
+    carried = {(renamed.get(src, src), rid) for src, rid in getattr(run, "voided_in_input", set())}
     run.loaded_types = {}
     for part in run.prs.part.package.iter_parts():
         t = pin.ctype(str(part.partname)) if pin.has_part(str(part.partname)) else None
         if t is not None:
             run.loaded_types[id(part)] = (part, str(part.partname), t)
-    run.voided_in_input = {(src, r_.id) for src in pin.part_names() for r_ in (pin.rels(src) or []) if not r_.external and not pin.has_part(r_.target)}
+    # (added to what the ORIGINAL input lacked, not replacing it: a reference that dangled in the input may have been given a
+    # relationship in between - the freed rId handed to a new hyperlink - and dangle again once that is dropped: it is the input's)
+    run.voided_in_input = carried | {(src, r_.id) for src in pin.part_names() for r_ in (pin.rels(src) or []) if not r_.external and not pin.has_part(r_.target)}
     run.voided_in_input |= {(src, val) for src in pin.part_names() for _a, val in pin.r_refs(src) if val and val not in {r_.id for r_ in (pin.rels(src) or [])}}
     run.acc.count("reopen_and_continue")
     return ""
